@@ -78,6 +78,8 @@ type modelVar struct {
 	Kind  string // int, bool, bytes, string
 	Terms []string
 	Ty    string
+	Arr   string // slices: array term
+	Mem0  string // slices: memory at entry
 }
 
 type closureInfo struct {
